@@ -39,9 +39,10 @@ def wordish(c):
 
 
 class Gen:
-    def __init__(self, rng, stress=False):
+    def __init__(self, rng, stress=False, table=False):
         self.rng = rng
         self.stress = stress
+        self.table = table       # only constructs of the transcribed template table (coq/C08/Fragment.v)
         self.feat = set()
 
     # ------------------------------------------------------------------ trivia
@@ -227,6 +228,9 @@ class Gen:
                 kinds += ["yield"]
             if fn == "async":
                 kinds += ["await"]
+        if self.table:
+            kinds = [k for k in kinds if k in ("name", "num", "str", "const", "attr", "call", "sub", "binop", "unary",
+                                               "not", "and", "or", "cmp", "tuple", "list", "pow", "paren")] or ["name"]
         kind = r.choice(kinds)
         level = {"lambda": 1, "ifexp": 2, "or": 3, "and": 4, "not": 5, "cmp": 6, "unary": 13, "pow": 14, "await": 15,
                  "walrus": 0, "yield": 0}.get(kind, 16)
@@ -374,7 +378,7 @@ class Gen:
         k = r.random()
         if k < 0.12:
             return "(" + r.choice(["", " ", "\n"]) + ")"
-        if k < 0.2:
+        if k < 0.2 and not self.table:
             return self.join(["(", self.expr(1, d + 1, True, fn), *self.comp_for(d, fn), ")"], True)
         toks = []
         n = r.randint(1, 3)
@@ -405,7 +409,7 @@ class Gen:
         r = self.rng
 
         def one():
-            if r.random() < 0.35:
+            if r.random() < 0.35 and not self.table:
                 toks = []
                 if r.random() < 0.6:
                     toks.append(self.expr(1, d + 1, True, fn))
@@ -535,6 +539,8 @@ class Gen:
             kinds += ["return"] * 2 + ["yield_stmt"]
         if loop:
             kinds += ["break", "continue"]
+        if self.table:
+            kinds = [k for k in kinds if k in ("assign", "expr", "pass", "import", "return", "strstmt", "strassign")]
         k = r.choice(kinds)
         if k == "assign":
             toks = []
@@ -668,6 +674,8 @@ class Gen:
             kinds += ["afor", "awith"]
         if self.stress:
             kinds += ["match"]
+        if self.table:
+            kinds = ["if", "if", "while", "for", "def"]
         k = r.choice(kinds)
         B = lambda lp=loop, f=fn: self.block(ind, d, f, lp)   # noqa: E731
         if k == "if":
@@ -725,9 +733,9 @@ class Gen:
             return out
         if k == "def":
             out = ""
-            for _ in range(r.choice([0, 0, 0, 1, 2])):
+            for _ in range(0 if self.table else r.choice([0, 0, 0, 1, 2])):
                 out += ind + J("@", self.expr(1, d + 2, False, None)) + self.eol() + (self.filler(ind) if r.random() < 0.3 else "")
-            is_async = r.random() < 0.2
+            is_async = r.random() < 0.2 and not self.table
             head = ["async", "def"] if is_async else ["def"]
             nm = r.choice(["f", "g", "é", "__init__", "if_"])
             tp = []
@@ -817,9 +825,9 @@ def valid(src):
         return False
 
 
-def generate(rng, n, stress=False, max_tries=None):
+def generate(rng, n, stress=False, max_tries=None, table=False):
     """yield (source, features) for n valid modules"""
-    g = Gen(rng, stress)
+    g = Gen(rng, stress, table)
     made = tries = 0
     max_tries = max_tries or n * 30
     import warnings
